@@ -137,4 +137,394 @@ theorem save_load_save_of_members {o : Obj} {os : OStream} {r : SaveRes} {hd : B
     (fun g hgm idx hidx => ⟨g, hgm, idx, hidx, rfl⟩) hagain hok
   exact ⟨r2, r3, hload, hok2, h3, hok3, hos3⟩
 
+/-! ### 2. `members_recomputed` : the loader's rule returns the declared member lists -/
+
+/-- the section is allocated (`SHF_ALLOC`), in the vocabulary of `Spec.inSegment` -/
+def isAlloc (b : SecBuf) : Bool := b.flags.toNat / Spec.SHF_ALLOC % 2 == 1
+/-- the section carries `SHF_TLS` -/
+def isTls (b : SecBuf) : Bool := b.flags.toNat / Spec.SHF_TLS % 2 == 1
+
+/-- **Writer-domain hypotheses about segment members** (on the object to be saved; every clause
+    decidable): members exist, are non-empty and allocated, are listed in ascending index order, carry
+    `SHF_TLS` exactly if the segment is a `PT_TLS`; the section with index 0 sits at file offset 0. -/
+structure MemberDomain (o : Obj) : Prop where
+  inRange : ∀ g ∈ o.segs, ∀ idx ∈ g.secs, idx.toNat < o.secs.length
+  nonEmpty : ∀ g ∈ o.segs, ∀ idx ∈ g.secs, ∀ s ∈ o.secs[idx.toNat]?, s.size ≠ 0
+  alloc : ∀ g ∈ o.segs, ∀ idx ∈ g.secs, ∀ s ∈ o.secs[idx.toNat]?, isAlloc s = true
+  tls : ∀ g ∈ o.segs, ∀ idx ∈ g.secs, ∀ s ∈ o.secs[idx.toNat]?, isTls s = (g.stype.toNat == Spec.PT_TLS)
+  sorted : ∀ g ∈ o.segs, g.secs.Pairwise (fun a b => a.toNat < b.toNat)
+  sec0 : ∀ s ∈ o.secs, s.index = 0 → s.offset = 0
+
+/-- the address-range test of the loader's rule for an allocated section -/
+def inAddrRange (b : SecBuf) (g : Seg) : Bool :=
+  decide (g.vaddr.toNat ≤ b.addr.toNat) && decide (b.addr.toNat + b.size.toNat ≤ g.vaddr.toNat + g.memsz.toNat) &&
+    decide (b.addr.toNat < g.vaddr.toNat + g.memsz.toNat)
+
+/-- **On the saved object** (decidable): an allocated section that is not a declared member of a segment
+    does not lie in that segment's address range (segments' address ranges are disjoint; allocated
+    sections outside all segments lie outside all segments' address ranges). -/
+def AddrSeparate (secs : List SecBuf) (segs : List Seg) : Prop :=
+  ∀ g ∈ segs, ∀ i ∈ List.range secs.length, ∀ b ∈ secs[i]?, isAlloc b = true →
+    (∀ idx ∈ g.secs, idx.toNat ≠ i) → inAddrRange b g = false
+
+instance (secs : List SecBuf) (segs : List Seg) : Decidable (AddrSeparate secs segs) := by
+  unfold AddrSeparate; infer_instance
+
+theorem inSegment_alloc {b : SecBuf} {g : Seg} (ha : isAlloc b = true) :
+    Spec.inSegment b.flags.toNat b.addr.toNat b.offset.toNat b.size.toNat
+      g.stype.toNat g.offset.toNat g.vaddr.toNat g.filesz.toNat g.memsz.toNat =
+    (if (isTls b != (g.stype.toNat == Spec.PT_TLS)) = true then false else inAddrRange b g) := by
+  unfold isAlloc at ha
+  unfold Spec.inSegment isTls inAddrRange
+  simp only [ha, if_true]
+
+theorem inSegment_nonalloc {b : SecBuf} {g : Seg} (ha : isAlloc b = false) :
+    Spec.inSegment b.flags.toNat b.addr.toNat b.offset.toNat b.size.toNat
+      g.stype.toNat g.offset.toNat g.vaddr.toNat g.filesz.toNat g.memsz.toNat =
+    (if (isTls b != (g.stype.toNat == Spec.PT_TLS)) = true then false else
+      decide (g.offset.toNat ≤ b.offset.toNat) &&
+        decide (b.offset.toNat + b.size.toNat ≤ g.offset.toNat + g.filesz.toNat) &&
+        decide (b.offset.toNat < g.offset.toNat + g.filesz.toNat)) := by
+  unfold isAlloc at ha
+  unfold Spec.inSegment isTls
+  simp only [ha, Bool.false_eq_true, if_false]
+
+theorem addr_in_range (a v sz m : BitVec 64) (h1 : (a - v).toNat + sz.toNat ≤ m.toNat)
+    (h2 : v.toNat + m.toNat < 18446744073709551616) (h3 : sz.toNat ≠ 0) :
+    v.toNat ≤ a.toNat ∧ a.toNat + sz.toNat ≤ v.toNat + m.toNat ∧ a.toNat < v.toNat + m.toNat := by
+  bv_omega
+
+/-- **members_recomputed** : for a flat writer-domain object (`FlatDomain`; `layoutDomB true false`: the
+    memory size covers every member — excludes F14), under `MemberDomain` on the input object and
+    `NoWrap64` / `AddrSeparate` on the saved object, the loader's membership rule evaluated on the saved
+    object returns, for every segment, exactly the declared member list in the declared order.
+    (A declared member is allocated, so the address rule applies: its address range lies inside
+    `[p_vaddr, p_vaddr + p_memsz)` by `C04.save_segments`, it is not empty, and its TLS flag matches.  A
+    non-allocated section is outside all segments, hence placed by the loose-section pass behind every
+    flat segment's file range; section 0 stays at offset 0, before every segment.) -/
+theorem members_recomputed {o : Obj} {os : OStream} {r : SaveRes} {hd : Bytes}
+    (hs : save o os = .ok r) (hok : r.ok = true) (D : FlatDomain o hd)
+    (hcov : layoutDomB true false (fun _ => true) (preSave o) hd = true) (M : MemberDomain o)
+    (hw : NoWrap64 r.obj.secs r.obj.segs) (hsep : AddrSeparate r.obj.secs r.obj.segs) :
+    MembersRecomputed r.obj.secs r.obj.segs := by
+  intro g hg
+  have hsegIdx := idx_of_B Seg.index o.segs D.input.segIdx
+  have hsecIdx := idx_of_B SecBuf.index o.secs D.input.secIdx
+  obtain ⟨fsec, fseg, ec, ee, et⟩ := C05.save_writes_fields hs hok hsegIdx
+  have hnd := nodup_of_idx hsegIdx
+  -- every segment of the saved object comes from a segment of the input with the same members and type
+  have hsrc : ∀ g' ∈ r.obj.segs, ∃ g0 ∈ o.segs, g'.secs = g0.secs ∧ g'.stype = g0.stype := by
+    intro g' hg'
+    obtain ⟨j, hj⟩ := List.getElem?_of_mem hg'
+    have hjlt : j < o.segs.length := by rw [← fseg.1]; exact getElem?_lt hj
+    have sg := C05.SegSaved.fields (fseg.2 j _ g' (List.getElem?_eq_getElem hjlt) hj)
+    exact ⟨_, List.getElem_mem hjlt, sg.2.2.2.2.1, sg.1⟩
+  -- a member of a segment of the saved object: what the input says about it
+  have hmemb : ∀ g' ∈ r.obj.segs, ∀ idx ∈ g'.secs, ∃ b, r.obj.secs[idx.toNat]? = some b ∧ b.size ≠ 0 ∧
+      isAlloc b = true ∧ isTls b = (g'.stype.toNat == Spec.PT_TLS) ∧ b.stype ≠ BitVec.ofNat 32 SHT_NULL := by
+    intro g' hg' idx hidx
+    obtain ⟨g0, hg0, e1, e2⟩ := hsrc g' hg'
+    rw [e1] at hidx
+    have hlt := M.inRange g0 hg0 idx hidx
+    have ha := List.getElem?_eq_getElem hlt
+    have hlt' : idx.toNat < r.obj.secs.length := by rw [fsec.1]; exact hlt
+    have hb := List.getElem?_eq_getElem hlt'
+    obtain ⟨-, -, est, efl, esz, -⟩ := (fsec.2 _ _ _ ha hb).fields
+    have hne := M.nonEmpty g0 hg0 idx hidx _ (by rw [ha]; rfl)
+    refine ⟨_, hb, by rw [esz]; exact hne, ?_, ?_, ?_⟩
+    · have := M.alloc g0 hg0 idx hidx _ (by rw [ha]; rfl)
+      unfold isAlloc at this ⊢; rw [efl]; exact this
+    · have := M.tls g0 hg0 idx hidx _ (by rw [ha]; rfl)
+      unfold isTls at this ⊢; rw [efl, e2]; exact this
+    · rw [est]
+      intro e
+      exact hne (D.null0 _ (List.getElem_mem hlt) e)
+  obtain ⟨-, -, hmem⟩ := C04.save_segments true false o os r hd hs hok D.hdr D.input.nsecs D.input.h0 D.nw hnd
+    (fun _ => true) hcov g hg rfl
+  obtain ⟨g0, hg0, egs, egt⟩ := hsrc g hg
+  apply sorted_ext
+  · unfold specMembers; exact List.Pairwise.filter _ List.pairwise_lt_range
+  · rw [egs, List.pairwise_map]; exact M.sorted _ hg0
+  intro i
+  unfold specMembers
+  rw [List.mem_filter, List.mem_range, List.mem_map]
+  constructor
+  · -- recomputed ⇒ declared
+    rintro ⟨hi, hP⟩
+    have hb := List.getElem?_eq_getElem hi
+    rw [hb] at hP
+    simp only at hP
+    apply Classical.byContradiction
+    intro hnot
+    have hnm : ∀ idx ∈ g.secs, idx.toNat ≠ i := fun idx hidx e => hnot ⟨idx, hidx, e⟩
+    cases hal : isAlloc r.obj.secs[i] with
+    | true =>
+      rw [inSegment_alloc hal] at hP
+      split at hP
+      · cases hP
+      · have := hsep g hg i (List.mem_range.2 hi) _ (by rw [hb]; rfl) hal hnm
+        rw [this] at hP; cases hP
+    | false =>
+      rw [inSegment_nonalloc hal] at hP
+      split at hP
+      · cases hP
+      · simp only [Bool.and_eq_true, decide_eq_true_eq] at hP
+        obtain ⟨⟨p1, p2⟩, p3⟩ := hP
+        -- a non-allocated section is outside all segments
+        have hwo : withoutSegment r.obj.segs i = true := by
+          rw [withoutSegment_eq]
+          simp only [Bool.not_eq_true', List.any_eq_false, List.any_eq_true, not_exists, not_and, beq_iff_eq]
+          intro g' hg' idx hidx e
+          obtain ⟨b', hb', -, hal', -⟩ := hmemb g' hg' idx hidx
+          rw [e, hb] at hb'
+          cases hb'
+          rw [hal] at hal'; cases hal'
+        have hfs : g.filesz.toNat ≠ 0 := by omega
+        have hph : lseg_is_phdr g.stype (BitVec.ofNat 16 g.secs.length) = false := by
+          rw [egs, egt]; exact D.noPhdr g0 hg0
+        obtain ⟨res, hl, -, -, -⟩ := C04.save_secs_hdr o os r hd hs hok D.hdr
+        obtain ⟨q1, q2⟩ := flat_seg_bounds hs hok D.hdr D.input.nsecs D.input.h0 D.nw hnd (fun _ => true) D.dom g hg rfl
+          hph hfs res hl
+        by_cases hi0 : (r.obj.secs[i]).index = 0
+        · -- section 0 stays at offset 0, before the initial cursor
+          have hio : i < o.secs.length := by rw [← fsec.1]; exact hi
+          have ha := List.getElem?_eq_getElem hio
+          have e0 : (o.secs[i]).index = 0 := by
+            rw [← (fsec.2 _ _ _ ha hb).fields.2.2.2.2.2.2.2.2.2.1]; exact hi0
+          have := saved_sec0_offset hs hok hsegIdx i _ _ ha hb e0
+          rw [M.sec0 _ (List.getElem_mem hio) e0] at this
+          have hfit : fitsB o.cls r.obj.curPos = true := by
+            obtain ⟨res', hlay, -, hcur, -⟩ := C04.save_secs_hdr o os r hd hs hok D.hdr
+            have hsm := D.small
+            unfold C03.fileSmallB at hsm
+            rw [hlay] at hsm
+            simp only [Bool.and_eq_true, decide_eq_true_eq] at hsm
+            rw [← hcur] at hsm
+            exact hsm.1
+          obtain ⟨_, _, _, _, _, _, _, _, _, _, _, eeh0, _, _⟩ := saved_header hs hok D.hdr D.input.ident hfit
+          have hp0 := pos0_pos hl eeh0 D.input.ehsize
+          have hz : (r.obj.secs[i]).offset.toNat = 0 := by rw [this]; rfl
+          omega
+        · have := saved_loose_offset_ge hs hok D.hdr D.nw i _ hb hwo hi0 res hl
+          omega
+  · -- declared ⇒ recomputed
+    rintro ⟨idx, hidx, rfl⟩
+    obtain ⟨b, hb, hsz, hal, htls, hnn⟩ := hmemb g hg idx hidx
+    refine ⟨getElem?_lt hb, ?_⟩
+    rw [hb]
+    simp only
+    rw [inSegment_alloc hal, htls]
+    simp only [bne_self_eq_false, Bool.false_eq_true, if_false]
+    have h1 := (hmem idx hidx b hb).2.2 rfl hnn
+    have hsz' : b.size.toNat ≠ 0 := by
+      intro e; apply hsz; exact BitVec.eq_of_toNat_eq (by rw [e]; rfl)
+    obtain ⟨a1, a2, a3⟩ := addr_in_range b.addr g.vaddr b.size g.memsz h1 (hw.seg g hg).1 hsz'
+    unfold inAddrRange
+    simp only [a1, a2, a3, decide_true, Bool.and_self]
+
+/-! ### 3. `save_load_save_flat` : hypotheses on the input object, `NoWrap64` / `AddrSeparate` on the saved one -/
+
+/-- the hypotheses of `save_load_save_flat` about the object to be saved (every clause decidable):
+    `FlatDomain` (Props/Compose.lean), the memory size of every segment covers its members
+    (`layoutDomB true false`: excludes F14), `MemberDomain`, section data in memory, no segment at file
+    offset 0 yet or all offsets initialised (`FrontOk`), and `ResaveOkR` (no F13 trigger, ELF32 fits, no
+    cursor wrap) -/
+structure ResaveDomain (o : Obj) (hd : Bytes) : Prop extends FlatDomain o hd where
+  cov : layoutDomB true false (fun _ => true) (preSave o) hd = true
+  members : MemberDomain o
+  resident : ∀ a ∈ o.secs, ResidentFull a
+  front : C06.FrontOk o.segs
+  resave : C06.ResaveOkR o hd
+
+/-- **save_load_save_flat** (C06, objects with flat segments) : save an object of the `ResaveDomain`
+    into a good stream; if no address / offset range of the saved object reaches 2^64 (`NoWrap64`) and
+    allocated non-members lie outside the segments' address ranges (`AddrSeparate`), then loading the
+    bytes with the model's loader (eager or lazy, string- or file-backed stream, into any object without
+    address translation) and saving the loaded object into the same initial stream succeeds and yields
+    the same stream, byte for byte. -/
+theorem save_load_save_flat {o : Obj} {os : OStream} {r : SaveRes} {hd : Bytes}
+    (hs : save o os = .ok r) (hok : r.ok = true) (hg : os.Good) (hos : os.content.length < 9223372036854775808)
+    (D : ResaveDomain o hd) (hw : NoWrap64 r.obj.secs r.obj.segs) (hsep : AddrSeparate r.obj.secs r.obj.segs)
+    (o2 : Obj) (k : StreamKind) (isLazy : Bool) (htr2 : o2.trans = []) :
+    ∃ (r2 : LoadRes) (r3 : SaveRes), load o2 { data := r.os.content, kind := k } isLazy = .ok r2 ∧ r2.ok = true ∧
+      save r2.obj os = .ok r3 ∧ r3.ok = true ∧ r3.os = r.os :=
+  save_load_save_of_members hs hok hg hos D.toFlatDomain hw D.resident D.front D.resave
+    (members_recomputed hs hok D.toFlatDomain D.cov D.members hw hsep) o2 k isLazy htr2
+
+/-- the general statement of Props/Compose.lean holds with the additional hypotheses found necessary
+    (each of them excludes a case in which the real code does not reproduce the file — see the family
+    docstring): the `SaveLoadSaveStatement` of Props/Compose.lean as first written (with `FlatDomain` and
+    `C06.ResaveOk` only) is too weak in its hypotheses. -/
+theorem saveLoadSave_flat_statement :
+    ∀ (o o2 : Obj) (os : OStream) (r : SaveRes) (hd : Bytes) (k : StreamKind) (isLazy : Bool),
+      save o os = .ok r → r.ok = true → os.Good → os.content.length < 9223372036854775808 →
+      ResaveDomain o hd → NoWrap64 r.obj.secs r.obj.segs → AddrSeparate r.obj.secs r.obj.segs → o2.trans = [] →
+      ∃ (r2 : LoadRes) (r3 : SaveRes), load o2 { data := r.os.content, kind := k } isLazy = .ok r2 ∧ r2.ok = true ∧
+        save r2.obj os = .ok r3 ∧ r3.ok = true ∧ r3.os.content = r.os.content := by
+  intro o o2 os r hd k isLazy hs hok hg hos D hw hsep htr2
+  obtain ⟨r2, r3, h1, h2, h3, h4, h5⟩ := save_load_save_flat hs hok hg hos D hw hsep o2 k isLazy htr2
+  exact ⟨r2, r3, h1, h2, h3, h4, by rw [h5]⟩
+
+/-! ### non-vacuity -/
+
+/-- ELF64/LSB: `.text` (automatic address), `.data` (explicit address) and `.bss` (NOBITS, align 1) in a
+    first PT_LOAD, `.ro` in a second PT_LOAD, a loose non-allocated `.c`; built with the model's API -/
+def exTwoM : M Obj := do
+  let o ← create {} .c64 .lsb
+  let o ← sectionsAdd o [0x2e, 0x74, 0x65, 0x78, 0x74]
+  let o := C06.updSec o 2 fun b => { b with stype := 1, flags := 6, addrAlign := 16 }
+  let o ← C06.updSecM o 2 fun b => b.setData (some [1, 2, 3, 4, 5]) 5
+  let o ← sectionsAdd o [0x2e, 0x64, 0x61, 0x74, 0x61]
+  let o := C06.updSec o 3 fun b => { b with stype := 1, flags := 3, addrAlign := 4, addr := 0x400020, addrSet := true }
+  let o ← C06.updSecM o 3 fun b => b.setData (some [9, 8, 7, 6, 5, 4, 3, 2]) 8
+  let o ← sectionsAdd o [0x2e, 0x62, 0x73, 0x73]
+  let o := C06.updSec o 4 fun b => ({ b with stype := 8, flags := 3, addrAlign := 1 }).setSize 32
+  let o ← sectionsAdd o [0x2e, 0x72, 0x6f]
+  let o := C06.updSec o 5 fun b => { b with stype := 1, flags := 2, addrAlign := 8 }
+  let o ← C06.updSecM o 5 fun b => b.setData (some [7, 7, 7]) 3
+  let o ← sectionsAdd o [0x2e, 0x63]
+  let o := C06.updSec o 6 fun b => { b with stype := 1, flags := 0x30, addrAlign := 1 }
+  let o ← C06.updSecM o 6 fun b => b.setData (some [0x41, 0x42, 0]) 3
+  let o := segmentsAdd o
+  let o := C06.updSeg o 0 fun g => { g with stype := 1, flags := 6, align := 0x1000, vaddr := 0x400000, paddr := 0x400000 }
+  let o := C06.updSeg o 0 fun g => segAddSection g 2 16
+  let o := C06.updSeg o 0 fun g => segAddSection g 3 4
+  let o := C06.updSeg o 0 fun g => segAddSection g 4 1
+  let o := segmentsAdd o
+  let o := C06.updSeg o 1 fun g => { g with stype := 1, flags := 4, align := 0x1000, vaddr := 0x800000, paddr := 0x800000 }
+  let o := C06.updSeg o 1 fun g => segAddSection g 5 8
+  pure o
+
+theorem exTwo_ok : ExOk (objOf exTwoM) := by
+  refine ⟨savedOf_eq _ (by decide +kernel), by decide +kernel,
+    ⟨⟨by decide +kernel, by decide +kernel,
+      ⟨by decide +kernel, by decide +kernel, by decide +kernel, by decide +kernel, by decide +kernel,
+       by decide +kernel, by decide +kernel, by decide +kernel, by decide +kernel, by decide +kernel,
+       by decide +kernel, by decide +kernel, by decide +kernel, by decide +kernel⟩,
+      by decide +kernel, by decide +kernel, by decide +kernel⟩,
+     by decide +kernel, by decide +kernel, by decide +kernel⟩,
+    ⟨by decide +kernel, by decide +kernel⟩⟩
+
+instance (segs : List Seg) : Decidable (Sv.NoZeroOffset segs) := by unfold Sv.NoZeroOffset; infer_instance
+
+/-! Bool-valued forms of `MemberDomain` and `AddrSeparate` (the `Decidable` instances of the nested
+bounded quantifiers evaluate very slowly in the kernel; these evaluate in well under a second). -/
+
+def pairwiseLtB : List (BitVec 16) → Bool
+  | [] => true
+  | a :: t => t.all (fun b => decide (a.toNat < b.toNat)) && pairwiseLtB t
+
+theorem pairwise_of_B (l : List (BitVec 16)) (h : pairwiseLtB l = true) :
+    l.Pairwise (fun a b => a.toNat < b.toNat) := by
+  induction l with
+  | nil => exact List.Pairwise.nil
+  | cons a t ih =>
+    unfold pairwiseLtB at h
+    simp only [Bool.and_eq_true, List.all_eq_true, decide_eq_true_eq] at h
+    exact List.Pairwise.cons h.1 (ih h.2)
+
+def memberDomainB (o : Obj) : Bool :=
+  o.segs.all (fun g =>
+    g.secs.all (fun idx => match o.secs[idx.toNat]? with
+      | some s => s.size != 0 && isAlloc s && (isTls s == (g.stype.toNat == Spec.PT_TLS))
+      | none => false) &&
+    pairwiseLtB g.secs) &&
+  o.secs.all (fun s => s.index != 0 || s.offset == 0)
+
+theorem memberDomain_of_B {o : Obj} (h : memberDomainB o = true) : MemberDomain o := by
+  unfold memberDomainB at h
+  simp only [Bool.and_eq_true, List.all_eq_true, Bool.or_eq_true, bne_iff_ne, ne_eq, beq_iff_eq] at h
+  obtain ⟨h1, h2⟩ := h
+  have key : ∀ g ∈ o.segs, ∀ idx ∈ g.secs, ∃ s, o.secs[idx.toNat]? = some s ∧ s.size ≠ 0 ∧ isAlloc s = true ∧
+      isTls s = (g.stype.toNat == Spec.PT_TLS) := by
+    intro g hg idx hidx
+    have := (h1 g hg).1 idx hidx
+    cases hs : o.secs[idx.toNat]? with
+    | none => rw [hs] at this; cases this
+    | some s =>
+      rw [hs] at this
+      simp only [Bool.and_eq_true, bne_iff_ne, ne_eq, beq_iff_eq] at this
+      exact ⟨s, rfl, this.1.1, this.1.2, this.2⟩
+  refine ⟨?_, ?_, ?_, ?_, fun g hg => pairwise_of_B _ (h1 g hg).2, ?_⟩
+  · intro g hg idx hidx
+    obtain ⟨s, hs, -⟩ := key g hg idx hidx
+    exact getElem?_lt hs
+  · intro g hg idx hidx s hs
+    obtain ⟨s', hs', k1, -⟩ := key g hg idx hidx
+    rw [hs'] at hs; cases hs; exact k1
+  · intro g hg idx hidx s hs
+    obtain ⟨s', hs', -, k2, -⟩ := key g hg idx hidx
+    rw [hs'] at hs; cases hs; exact k2
+  · intro g hg idx hidx s hs
+    obtain ⟨s', hs', -, -, k3⟩ := key g hg idx hidx
+    rw [hs'] at hs; cases hs; exact k3
+  · intro s hs hi
+    rcases h2 s hs with h' | h'
+    · exact absurd hi h'
+    · exact h'
+
+def addrSeparateB (secs : List SecBuf) (segs : List Seg) : Bool :=
+  segs.all fun g => (List.range secs.length).all fun i =>
+    match secs[i]? with
+    | some b => !isAlloc b || g.secs.any (fun idx => idx.toNat == i) || !inAddrRange b g
+    | none => true
+
+theorem addrSeparate_of_B {secs : List SecBuf} {segs : List Seg} (h : addrSeparateB secs segs = true) :
+    AddrSeparate secs segs := by
+  unfold addrSeparateB at h
+  simp only [List.all_eq_true] at h
+  intro g hg i hi b hb hal hnm
+  have := h g hg i hi
+  rw [show secs[i]? = some b from hb] at this
+  simp only [Bool.or_eq_true, Bool.not_eq_true', List.any_eq_true, beq_iff_eq] at this
+  rcases this with (h1 | ⟨idx, hidx, e⟩) | h3
+  · rw [hal] at h1; cases h1
+  · exact absurd e (hnm idx hidx)
+  · exact h3
+
+/-- the hypotheses of `save_load_save_flat` that are not part of `ExOk`, for a concrete object saved into
+    an empty stream (Bool-valued forms where a Prop is not decidable as it stands) -/
+structure ExResave (o : Obj) : Prop where
+  cov : layoutDomB true false (fun _ => true) (preSave o) (o.hdr.getD []) = true
+  members : memberDomainB o = true
+  res : ∀ a ∈ o.secs, ResidentFull a
+  front : Sv.NoZeroOffset o.segs
+  resave : C06.resaveOkRB o (o.hdr.getD []) = true
+  sep : addrSeparateB (savedOf o).obj.secs (savedOf o).obj.segs = true
+
+theorem exFlat_resave : ExResave (objOf exFlatM) :=
+  ⟨by decide +kernel, by decide +kernel, by decide +kernel, by decide +kernel, by decide +kernel, by decide +kernel⟩
+theorem exTwo_resave : ExResave (objOf exTwoM) :=
+  ⟨by decide +kernel, by decide +kernel, by decide +kernel, by decide +kernel, by decide +kernel, by decide +kernel⟩
+
+/-- `save_load_save_flat` applies to every object meeting `ExOk` and `ExResave` … -/
+theorem ExOk.saveLoadSave {o : Obj} (h : ExOk o) (h2 : ExResave o) (o2 : Obj) (k : StreamKind) (isLazy : Bool)
+    (htr2 : o2.trans = []) :
+    ∃ (r2 : LoadRes) (r3 : SaveRes), load o2 { data := (savedOf o).os.content, kind := k } isLazy = .ok r2 ∧
+      r2.ok = true ∧ save r2.obj {} = .ok r3 ∧ r3.ok = true ∧ r3.os = (savedOf o).os :=
+  save_load_save_flat h.saved h.ok ⟨rfl, rfl⟩ (by decide)
+    ⟨h.dom, h2.cov, memberDomain_of_B h2.members, h2.res, Or.inl h2.front, C06.resaveOkR_of_B h2.resave⟩ h.noWrap
+    (addrSeparate_of_B h2.sep) o2 k isLazy htr2
+
+/-- … in particular to the ELF32/MSB object with one PT_LOAD (`exFlatM`) and to the ELF64/LSB object with
+    two PT_LOADs, an explicit address, a NOBITS member and a loose section (`exTwoM`), for every stream
+    kind and load mode; the recomputed member lists are the declared ones -/
+example (k : StreamKind) (isLazy : Bool) :
+    ∃ (r2 : LoadRes) (r3 : SaveRes),
+      load {} { data := (savedOf (objOf exFlatM)).os.content, kind := k } isLazy = .ok r2 ∧ r2.ok = true ∧
+      save r2.obj {} = .ok r3 ∧ r3.ok = true ∧ r3.os = (savedOf (objOf exFlatM)).os :=
+  exFlat_ok.saveLoadSave exFlat_resave {} k isLazy rfl
+
+example (k : StreamKind) (isLazy : Bool) :
+    ∃ (r2 : LoadRes) (r3 : SaveRes),
+      load {} { data := (savedOf (objOf exTwoM)).os.content, kind := k } isLazy = .ok r2 ∧ r2.ok = true ∧
+      save r2.obj {} = .ok r3 ∧ r3.ok = true ∧ r3.os = (savedOf (objOf exTwoM)).os :=
+  exTwo_ok.saveLoadSave exTwo_resave {} k isLazy rfl
+
+example : MembersRecomputed (savedOf (objOf exTwoM)).obj.secs (savedOf (objOf exTwoM)).obj.segs ∧
+    ((savedOf (objOf exTwoM)).obj.segs.map fun g => (g.offset, g.filesz, g.memsz, g.secs)) =
+      [(0x1000#64, 0x28#64, 0x48#64, [2#16, 3#16, 4#16]), (0x2000#64, 3#64, 3#64, [5#16])] :=
+  ⟨members_recomputed exTwo_ok.saved exTwo_ok.ok exTwo_ok.dom exTwo_resave.cov (memberDomain_of_B exTwo_resave.members)
+    exTwo_ok.noWrap (addrSeparate_of_B exTwo_resave.sep), by decide +kernel⟩
+
 end ElfioVerif.Compose
